@@ -96,6 +96,14 @@ func c02RunOnce(ctx *Ctx, dir string, tree map[string]fileState, cfg wrConfig) (
 	return c02Judge(dir, cfg, before, after, r), r, nil
 }
 
+func treeSize(t map[string]fileState) int {
+	n := 0
+	for _, st := range t {
+		n += 1 + len(st.Data)
+	}
+	return n
+}
+
 func c02Has(ps []c02Problem, key string) *c02Problem {
 	for i := range ps {
 		if ps[i].Key == key {
@@ -212,6 +220,13 @@ func runC02(ctx *Ctx) *Result {
 		}
 		os.RemoveAll(root)
 	})
+	type pending struct {
+		tree map[string]fileState
+		cfg  wrConfig
+		p    c02Problem
+		size int
+	}
+	worst := map[string]pending{}
 	chmods, changedF, nontrivial, abnormal := 0, 0, 0, 0
 	for _, rr := range recs {
 		for _, rec := range rr {
@@ -243,9 +258,21 @@ func runC02(ctx *Ctx) *Result {
 				res.Sample(map[string]any{"run": rec.cfg.String(), "exit": rec.r.Exit, "problems": len(rec.ps)})
 			}
 			for _, p := range rec.ps {
-				c02Report(ctx, res, rec.tree, rec.cfg, p, 100)
+				sz := treeSize(rec.tree)
+				if old, ok := worst[p.Key]; !ok || sz < old.size {
+					worst[p.Key] = pending{rec.tree, rec.cfg, p, sz}
+				}
 			}
 		}
+	}
+	// one report (and one shrinking) per kind of problem, on the smallest tree that showed it
+	for i, k := range sortedKeys(worst) {
+		w := worst[k]
+		budget := 100
+		if i >= 6 {
+			budget = 0
+		}
+		c02Report(ctx, res, w.tree, w.cfg, w.p, budget)
 	}
 	res.DistinctNontrivial = nontrivial
 	res.Count("runs_-F_with_autofix_lines", changedF)
